@@ -7,7 +7,7 @@
 From Coq Require Import Reals ZArith List Bool String.
 From PyLib Require Import PyVal PyBuiltins Ideal.
 From Gen Require Import M_base M_Angle M_Epoch M_Interpolation M_Coordinates M_Earth M_Sun.
-From Proofs.C14 Require Import C14_tac C14_angle C14_jde C14_eot C14_season C14_seasonB C14_season_all C14_poly C14_rise.
+From Proofs.C14 Require Import C14_tac C14_angle C14_angle2 C14_jde C14_eot C14_season C14_season_all C14_poly C14_rise.
 Import ListNotations.
 Open Scope R_scope.
 
@@ -60,6 +60,17 @@ Theorem C14_season_exit_step : forall (D : R -> Prop) k y,
        F (S n) a (VFloat c) (epo e) la lo r = epo (e - c).
 Proof. exact season_exit_step. Qed.
 
+(* the loop invariant, by induction on the fuel of the generated loop.  D: any set of instants on
+   which the Epoch constructor is exact and the Sun position is (lam, bet, rad), closed under the
+   correction step e -> e + 58 sin(k*90 - lam+(e)) and containing jde0.  Whenever the model returns
+   anything but OutOfFuel it returns an Epoch t in D with |58 sin(k*90 - lam+(t))| <= 2.5e-6,
+   lam+ = the longitude brought to [0, 360). *)
+Theorem C14_season_loop_invariant : forall (D : R -> Prop) k y lam bet rad,
+  (0 <= k <= 3)%Z -> (-1000 <= y <= 3000)%Z -> SunModel D lam bet rad -> StepClosed D k lam ->
+  D (jde0 k y) ->
+  SeasonGood D k lam (Sun_get_equinox_solstice Rops (VInt y) (VStr (season_name k))).
+Proof. exact season_loop_invariant. Qed.
+
 Theorem C14_season_year_range : forall y,
   ((y < -1000)%Z -> Sun_get_equinox_solstice Rops (VInt y) (VStr "spring") = VErr ValueError) /\
   ((3000 < y)%Z -> Sun_get_equinox_solstice Rops (VInt y) (VStr "winter") = VErr ValueError).
@@ -94,6 +105,7 @@ Redirect "C14_eot_bound.assumptions" Print Assumptions C14_eot_bound.
 Redirect "C14_eot_seconds.assumptions" Print Assumptions C14_eot_seconds.
 Redirect "C14_eot_recompose.assumptions" Print Assumptions C14_eot_recompose.
 Redirect "C14_season_first_query.assumptions" Print Assumptions C14_season_first_query.
+Redirect "C14_season_loop_invariant.assumptions" Print Assumptions C14_season_loop_invariant.
 Redirect "C14_season_year_range.assumptions" Print Assumptions C14_season_year_range.
 Redirect "C14_season_type.assumptions" Print Assumptions C14_season_type.
 Redirect "C14_season_exit_step.assumptions" Print Assumptions C14_season_exit_step.
